@@ -45,6 +45,8 @@ static void check_mutant(const char* what, ropen_t* o, const prange_t* pr, int v
     if (cr) { const carquet_schema_node_t* nd = NULL; int leaf = -1; for (int e = 0; e < carquet_schema_num_elements(s); e++) { const carquet_schema_node_t* n = carquet_schema_get_element(s, e); if (n && carquet_schema_node_is_leaf(n) && ++leaf == pr->col) { nd = n; break; } }
         int type = nd ? (int)carquet_schema_node_physical_type(nd) : 1; int32_t tl = nd ? carquet_schema_node_type_length(nd) : 0; size_t aes = type == CARQUET_PHYSICAL_BYTE_ARRAY ? sizeof(carquet_byte_array_t) : type == 0 ? 1 : type == 1 || type == 4 ? 4 : type == 3 ? 12 : type == 7 ? (size_t)tl : 8;
         int64_t delivered = 0; int saw_error = 0; int64_t step = (bit % 2) ? 7 : 1000000; int guard = 0;
+        /* every 4th mutant: a skip that ends inside the damaged page comes first; rows handed out afterwards are counted from the skip position */
+        if (verify && bit % 4 == 3) { int64_t want = (int64_t)pr->first_row + 1 + (bit % 3); int64_t sk = carquet_column_skip(cr, want); v_count("mutants_read_after_a_skip_into_the_damaged_page"); if (sk < 0) saw_error = 1; else delivered = sk; }
         while (carquet_column_has_next(cr) && guard++ < 100000) { int64_t rem = carquet_column_remaining(cr); int64_t k = step < rem ? step : rem; void* vals = v_exact((size_t)k * aes); int16_t* defs = v_exact((size_t)k * 2);
             int64_t n = carquet_column_read_batch(cr, vals, k, defs, NULL); if (n > 0 && type == CARQUET_PHYSICAL_BYTE_ARRAY && !verify) { /* touch what was handed back */ int64_t nn = 0; for (int64_t q = 0; q < n; q++) if (defs[q] > 0 || carquet_schema_node_repetition(nd) == CARQUET_REPETITION_REQUIRED) nn++; (void)nn; }
             free(vals); free(defs); if (n < 0) { saw_error = 1; break; } if (n == 0) break; delivered += n; }
@@ -86,7 +88,17 @@ static void damage_section(const char* path, const char* ranges, long stride, co
     unlink(tmp); free(orig);
 }
 
+/* first use of the CRC by several threads at once (the tables are built lazily): every thread must get the IEEE value */
+#include <pthread.h>
+typedef struct { pthread_barrier_t* bar; const uint8_t* p; size_t n; uint32_t got; } crc_arg_t;
+static void* crc_thread(void* a) { crc_arg_t* x = a; pthread_barrier_wait(x->bar); x->got = carquet_crc32(x->p, x->n); return NULL; }
+static void crc_first_use(int nthreads) { size_t n = 4096 + vrng_below(&R, 4096); uint8_t* p = v_exact(n); vrng_bytes(&R, p, n); uint32_t want = (uint32_t)crc32(0L, p, (uInt)n); pthread_barrier_t bar; pthread_barrier_init(&bar, NULL, (unsigned)nthreads); crc_arg_t a[32]; pthread_t th[32];
+    for (int i = 0; i < nthreads; i++) { a[i].bar = &bar; a[i].p = p; a[i].n = n; a[i].got = 0; pthread_create(&th[i], NULL, crc_thread, &a[i]); } for (int i = 0; i < nthreads; i++) pthread_join(th[i], NULL);
+    for (int i = 0; i < nthreads; i++) { v_case(v_hash(&a[i].got, 4, (uint64_t)i + n)); v_count("crc_values_from_concurrent_first_use"); if (a[i].got != want) { v_viol("crc32:differs-from-zlib:concurrent-first-use", "thread %d of %d: got %08x want %08x (len %zu)", i, nthreads, a[i].got, want, n); break; } }
+    free(p); }
+
 int main(int argc, char** argv) {
+    if (argc >= 4 && !strcmp(argv[1], "crcfirst")) { /* no carquet call before the threads start */ vrng_seed(&R, strtoull(argv[2], 0, 10) * 977 + 5); crc_first_use(atoi(argv[3])); v_finish(); return 0; }
     if (argc < 4) return 2; (void)carquet_init(); uint64_t seed = strtoull(argv[2], 0, 10); vrng_seed(&R, seed * 3571 + 11);
     if (!strcmp(argv[1], "crc")) crc_section(atoi(argv[3])); else if (!strcmp(argv[1], "damage") && argc >= 7) damage_section(argv[4], argv[5], atol(argv[3]), argv[6]); else return 2;
     v_finish(); return 0;
